@@ -1,0 +1,5 @@
+//go:build !verif
+
+package db
+
+func verifCrashPoint(kind string, keys int) {}
